@@ -20,9 +20,18 @@ BIN = ("add", "sub", "mul", "div", "append", "hcat", "vcat")
 #   ["S", q, kind]            kind: int | float | npfloat | npint
 #   ["A", p, m, [q...], dtype]
 #   ["neg", x] ["pow", k, x] ["fb", sign, via, x, y] ["sel", rows, cols, x] [binop, x, y]
+#   [u01] ["let", name, def, body] ["var", name]: `def` is evaluated ONCE by the adapter and the
+#   very same Python object is used at every ["var", name] of `body` (object identity / operand
+#   history matters to the implementation; the model is a pure function, so the driver line simply
+#   repeats the definition).  Leaf forms "shared" / "shared_int": equal coefficient lists anywhere
+#   in the tree are passed to the constructor as the very same ndarray object.
 # ----------------------------------------------------------------------------
 
-def flatten(t):
+SHARED_FORMS = ("shared", "shared_int")
+
+
+def flatten(t, env=None):
+    """postfix driver program of a tree; `env`: name -> program of the let-bound definitions"""
     k = t[0]
     if k == "T":
         _, p, m, dt, ents, _form = t
@@ -34,24 +43,32 @@ def flatten(t):
         return "S " + t[1]
     if k == "A":
         return "A %d %d %s" % (t[1], t[2], " ".join(t[3]))
+    if k == "let":          # [u01]
+        env2 = dict(env or {})
+        env2[t[1]] = flatten(t[2], env)
+        return flatten(t[3], env2)
+    if k == "var":          # [u01]
+        return env[t[1]]
     if k == "neg":
-        return flatten(t[1]) + " neg"
+        return flatten(t[1], env) + " neg"
     if k == "pow":
-        return flatten(t[2]) + " pow %d" % t[1]
+        return flatten(t[2], env) + " pow %d" % t[1]
     if k == "fb":
-        return flatten(t[3]) + " " + flatten(t[4]) + " fb " + t[1]
+        return flatten(t[3], env) + " " + flatten(t[4], env) + " fb " + t[1]
     if k == "sel":
-        return flatten(t[3]) + " sel %d %s %d %s" % (
+        return flatten(t[3], env) + " sel %d %s %d %s" % (
             len(t[1]), " ".join(map(str, t[1])), len(t[2]), " ".join(map(str, t[2])))
     if k in BIN:
-        return flatten(t[1]) + " " + flatten(t[2]) + " " + k
+        return flatten(t[1], env) + " " + flatten(t[2], env) + " " + k
     raise ValueError(k)
 
 
 def children(t):
     k = t[0]
-    if k in ("T", "S", "A"):
+    if k in ("T", "S", "A", "var"):
         return []
+    if k == "let":
+        return [2, 3]
     if k == "neg":
         return [1]
     if k == "pow":
@@ -77,14 +94,14 @@ def int_leaf(t):
     """some leaf is stored by the implementation as an integer-dtype array"""
     if t[0] == "T":
         # build_leaf decides per coefficient list (the constructor keeps the dtype of each array)
-        return t[5] in ("int", "ndarray_int") and any(
+        return t[5] in ("int", "ndarray_int", "shared_int") and any(
             all(Fraction(x).denominator == 1 for x in lst) for (n, d) in t[4] for lst in (n, d))
     return any(int_leaf(t[i]) for i in children(t))
 
 
 def ops_in(t, acc=None):
     acc = [] if acc is None else acc
-    if t[0] not in ("T", "S", "A"):
+    if t[0] not in ("T", "S", "A", "var"):
         acc.append(t[0])
     for i in children(t):
         ops_in(t[i], acc)
@@ -143,11 +160,22 @@ def num_value(q, kind):
     return float(q)
 
 
-def build_leaf(t):
+def build_leaf(t, cache=None):
     _, p, m, dt, ents, form = t
     def coeffs(lst):
         vals = [Fraction(x) for x in lst]
         allint = all(v.denominator == 1 for v in vals)
+        if form in SHARED_FORMS:
+            # [u01] one ndarray object per distinct coefficient list of the whole tree: entries (of
+            # this and of other leaves) with equal lists are built from the very same array object
+            asint = form == "shared_int" and allint
+            key = (tuple(lst), asint)
+            if cache is None:
+                return np.array([int(v) for v in vals]) if asint else np.array([float(v) for v in vals])
+            if key not in cache:
+                cache[key] = np.array([int(v) for v in vals]) if asint else \
+                    np.array([float(v) for v in vals])
+            return cache[key]
         if form == "int" and allint:
             return [int(v) for v in vals]
         if form == "ndarray_int" and allint:
@@ -155,7 +183,7 @@ def build_leaf(t):
         if form == "ndarray_float":
             return np.array([float(v) for v in vals])
         return [float(v) for v in vals]
-    if p == 1 and m == 1 and form != "nested":
+    if p == 1 and m == 1 and form != "nested" and form not in SHARED_FORMS:
         num, den = coeffs(ents[0][0]), coeffs(ents[0][1])
     else:
         num = [[coeffs(ents[i * m + j][0]) for j in range(m)] for i in range(p)]
@@ -163,10 +191,14 @@ def build_leaf(t):
     return ct.TransferFunction(num, den, dt_value(dt))
 
 
-def run_tree(t):
+def run_tree(t, env=None, cache=None):
+    """evaluate the tree with the real code.  `env`: name -> the object a let bound (evaluated
+    once; every ["var", name] is that very object); `cache`: the shared coefficient arrays"""
     k = t[0]
+    cache = {} if cache is None else cache
+    ev = lambda x: run_tree(x, env, cache)
     if k == "T":
-        return build_leaf(t)
+        return build_leaf(t, cache)
     if k == "S":
         return num_value(t[1], t[2])
     if k == "A":
@@ -174,19 +206,25 @@ def run_tree(t):
         if t[4] == "int" and all(v.denominator == 1 for v in vals):
             return np.array([int(v) for v in vals]).reshape(t[1], t[2])
         return np.array([float(v) for v in vals]).reshape(t[1], t[2])
+    if k == "let":          # [u01]
+        env2 = dict(env or {})
+        env2[t[1]] = ev(t[2])
+        return run_tree(t[3], env2, cache)
+    if k == "var":          # [u01]
+        return env[t[1]]
     if k == "neg":
-        return -run_tree(t[1])
+        return -ev(t[1])
     if k == "pow":
-        return run_tree(t[2]) ** t[1]
+        return ev(t[2]) ** t[1]
     if k == "fb":
-        a, b = run_tree(t[3]), run_tree(t[4])
+        a, b = ev(t[3]), ev(t[4])
         sign = num_value(t[1], "float" if Fraction(t[1]).denominator != 1 else "int")
         if t[2] == "func":
             return ct.feedback(a, b, sign)
         return a.feedback(b, sign)
     if k == "sel":
-        return run_tree(t[3])[t[1], t[2]]
-    a, b = run_tree(t[1]), run_tree(t[2])
+        return ev(t[3])[t[1], t[2]]
+    a, b = ev(t[1]), ev(t[2])
     if k == "add":
         return a + b
     if k == "sub":
@@ -204,6 +242,181 @@ def run_tree(t):
     raise ValueError(k)
 
 
+# ---- [u01] begin: let/var utilities, exact rational-function matrices ------------------------
+def free_vars(t, bound=frozenset()):
+    k = t[0]
+    if k == "var":
+        return set() if t[1] in bound else {t[1]}
+    if k == "let":
+        return free_vars(t[2], bound) | free_vars(t[3], bound | {t[1]})
+    out = set()
+    for i in children(t):
+        out |= free_vars(t[i], bound)
+    return out
+
+
+def var_uses(t, name):
+    """free occurrences of ["var", name]"""
+    if t[0] == "var":
+        if t[1] == name:
+            yield t
+        return
+    if t[0] == "let":
+        yield from var_uses(t[2], name)
+        if t[1] != name:
+            yield from var_uses(t[3], name)
+        return
+    for i in children(t):
+        yield from var_uses(t[i], name)
+
+
+def subst(t, name, d):
+    """t with the free occurrences of ["var", name] replaced by the (closed) tree d"""
+    if t[0] == "var":
+        return d if t[1] == name else t
+    if t[0] == "let":
+        return ["let", t[1], subst(t[2], name, d), t[3] if t[1] == name else subst(t[3], name, d)]
+    t2 = list(t)
+    for i in children(t):
+        t2[i] = subst(t[i], name, d)
+    return t2
+
+
+def prune_lets(t):
+    """drop the lets whose name is not used: a let is strict in the adapter (its definition is
+    evaluated, and may raise, even if unused) while the driver line only contains what is used"""
+    if t[0] == "let":
+        body = prune_lets(t[3])
+        if not any(True for _ in var_uses(body, t[1])):
+            return body
+        return ["let", t[1], prune_lets(t[2]), body]
+    t2 = list(t)
+    for i in children(t):
+        t2[i] = prune_lets(t[i])
+    return t2
+
+
+def closed_subtrees(t, lets=()):
+    """every proper sub-tree, wrapped in the enclosing lets it refers to (so that it is a case)"""
+    def wrap(s, lets):
+        for (name, d) in reversed(lets):
+            if name in free_vars(s):
+                s = ["let", name, d, s]
+        return s
+    if t[0] == "let":
+        yield wrap(t[2], lets)
+        yield from closed_subtrees(t[2], lets)
+        inner = lets + ((t[1], t[2]),)
+        yield wrap(t[3], inner)
+        yield from closed_subtrees(t[3], inner)
+        return
+    for i in children(t):
+        yield wrap(t[i], lets)
+        yield from closed_subtrees(t[i], lets)
+
+
+def peel(t):
+    """(enclosing lets, first node that is not a let)"""
+    lets = []
+    while t[0] == "let":
+        lets.append((t[1], t[2]))
+        t = t[3]
+    return lets, t
+
+
+def operand_trees(t):
+    """for a tree whose operator (below its lets) can answer `notImplemented` in the model
+    (division, negative power, feedback): the operand trees as closed cases, else None"""
+    lets, core = peel(t)
+    def wrap(s):
+        for (name, d) in reversed(lets):
+            s = ["let", name, d, s]
+        return s
+    if core[0] == "div":
+        return [wrap(core[1]), wrap(core[2])]
+    if core[0] == "pow" and core[1] < 0:
+        return [wrap(core[2])]
+    if core[0] == "fb":
+        return [wrap(core[3]), wrap(core[4])]
+    return None
+
+
+# rational functions as unreduced pairs (num, den) of polynomials over Fraction
+def rf_mul(a, b):
+    return (exact.pmul(a[0], b[0]), exact.pmul(a[1], b[1]))
+
+
+def rf_add(a, b):
+    return (exact.padd(exact.pmul(a[0], b[1]), exact.pmul(b[0], a[1])), exact.pmul(a[1], b[1]))
+
+
+def rf_neg(a):
+    return (exact.pscale(Fraction(-1), a[0]), a[1])
+
+
+RF0 = ([Fraction(0)], [Fraction(1)])
+RF1 = ([Fraction(1)], [Fraction(1)])
+
+
+def rf_const(c):
+    return ([Fraction(c)], [Fraction(1)])
+
+
+def rf_close(a, b, rel):
+    """a == b as rational functions; `rel` = 0: exactly, else cross-multiplied coefficients agree
+    to that relative tolerance"""
+    lhs, rhs = exact.pmul(a[0], b[1]), exact.pmul(b[0], a[1])
+    diff = exact.padd(lhs, exact.pscale(Fraction(-1), rhs))
+    if rel == 0:
+        return exact.pzero(diff)
+    scale = max([abs(x) for x in lhs + rhs] + [Fraction(0)])
+    return all(abs(x) <= rel * scale for x in diff)
+
+
+def rm_mul(A, B):
+    out = []
+    for i in range(len(A)):
+        row = []
+        for j in range(len(B[0])):
+            acc = RF0
+            for k in range(len(B)):
+                acc = rf_add(acc, rf_mul(A[i][k], B[k][j]))
+            row.append(acc)
+        out.append(row)
+    return out
+
+
+def rm_eye(n, g=RF1):
+    return [[g if i == j else RF0 for j in range(n)] for i in range(n)]
+
+
+def rm_det(A):
+    n = len(A)
+    if n == 1:
+        return A[0][0]
+    acc = RF0
+    for j in range(n):
+        minor = [row[:j] + row[j + 1:] for row in A[1:]]
+        term = rf_mul(A[0][j], rm_det(minor))
+        acc = rf_add(acc, rf_neg(term) if j % 2 else term)
+    return acc
+
+
+def value_matrix(res):
+    """canonical result {"type": tf|scalar|array ...} -> (kind, matrix of rational functions)"""
+    if res["type"] == "tf":
+        p, m = res["p"], res["m"]
+        ent = [([Fraction(x) for x in n], [Fraction(x) for x in d]) for (n, d) in res["ent"]]
+        return "sys", [[ent[i * m + j] for j in range(m)] for i in range(p)]
+    if res["type"] == "scalar":
+        return "scalar", [[rf_const(Fraction(res["v"]))]]
+    if res["type"] == "array":
+        p, m = res["p"], res["m"]
+        return "array", [[rf_const(Fraction(res["v"][i * m + j])) for j in range(m)] for i in range(p)]
+    return None, None
+# ---- [u01] end --------------------------------------------------------------------------------
+
+
 def canon_result(r):
     if isinstance(r, ct.TransferFunction):
         ents = []
@@ -219,6 +432,8 @@ def canon_result(r):
                        "v": [tok(fr(x)) for x in r2.flatten()]}}
     if isinstance(r, (int, float, np.number)):
         return {"ok": {"type": "scalar", "v": tok(fr(r))}}
+    if isinstance(r, np.ndarray):       # [u01] an object array (NumPy's elementwise fallback)
+        return {"ok": {"type": "other", "repr": "ndarray[%s]" % r.dtype}}
     return {"ok": {"type": "other", "repr": type(r).__name__}}
 
 
@@ -246,7 +461,18 @@ class C01(Family):
         "comparison additionally needs every intermediate below 2^50.  Otherwise: legacy streams are "
         "compared to a relative tolerance of 1e-9, cases of the near-equal stream are not judged "
         "(histogram key near=not-judged(rounding)), and a zero-denominator disagreement is not judged",
-        "the timebase of results is checked by C05; C01 uses operands with compatible timebases"]
+        "the timebase of results is checked by C05; C01 uses operands with compatible timebases",
+        # [u01]
+        "where the model answers notImplemented (MIMO divisor, negative power of a MIMO system, MIMO "
+        "feedback) and the implementation returns a system, that system is tested in exact "
+        "rational-function arithmetic of the harness (Fractions; operand values from the model) "
+        "against X*B == A with det B != 0, X*M^k == I, (I - sign*G*H)*X == G "
+        "(Props/C01: quotient_criterion, neg_pow_criterion, feedback_criterion, "
+        "no_inverse_of_det_not_unit) to a relative tolerance of 1e-9; a non-finite (inf/nan) "
+        "implementation result is judged only when the audit bounds every term below 2^1000 "
+        "(histogram key nonfinite=not-judged(overflow) otherwise)",
+        "a let-bound operand is evaluated once by the adapter and the same Python object is used "
+        "at every occurrence; the model is a pure function, so its driver line repeats the definition"]
     rule = ("random expression trees over TransferFunction leaves (shapes {1,2,3}^2, degree<=3, "
             "coefficients -4..4, zero numerators, static gains, improper entries, int/float/ndarray "
             "input forms), scalars and arrays on either side; plus a near-equal stream (case key "
@@ -254,7 +480,16 @@ class C01(Family):
             "equal) of one or two base fractions whose coefficients are normal, tiny (2^-27..2^-40: "
             "tail, leading or all coefficients) or large (2^10..2^24), used in operator trees, SISO "
             "pairs, near-singular feedback loops (H ~ sign/G), near-cancelling differences as "
-            "divisors, and row*column products; a case is non-trivial when it has a "
+            "divisors, and row*column products; plus a shared-object stream (case key 'alias'): "
+            "let-bound operands used several times (the same TransferFunction object on both sides of "
+            "an operator, operands used again after an operator has seen them), systems several "
+            "entries of which are the same coefficient array objects (append(G,G), combine_tf([[G,G]]), "
+            "2x2 blocks of G, G[[0,0],[1,1]], tf([[n,n]],[[d,d]]) with one ndarray n; even and odd "
+            "numbers of aliases) followed by neg / sub / the other operators; plus a dispatch stream "
+            "(case key 'dispatch'): one operator (/, **k incl. negative k, feedback, + - *, append, "
+            "hcat, vcat) on every combination of operand classes (scalar, 2-D array, SISO, row, "
+            "column, square and non-square MIMO system; literal or assembled), including the "
+            "combinations the code rejects; a case is non-trivial when it has a "
             "dynamic leaf, at least one binary operator, and the model result is a non-constant system; "
             "distinct = distinct canonical serialisation")
 
@@ -399,6 +634,215 @@ class C01(Family):
         return ["mul", G, H] if rng.random() < 0.7 else ["mul", H, self.near_leaf(
             rng, (m, k), dt, dict(ctx, den_only=True))]
 
+    # ---- [u01] begin: operands with a history (shared objects); operator x operand-class dispatch ----
+    def alias_leaf(self, rng, shape, dt, shared=False):
+        """small leaf, mostly without leading zeros; `shared`: the entries are drawn from a pool of
+        one or two fractions and built from the very same ndarray objects (tf([[n, n]], [[d, d]]))"""
+        p, m = shape
+        def ent():
+            num = self.rnd_coeffs(rng, rng.choice([0, 1, 1, 2]), True)
+            den = self.rnd_coeffs(rng, rng.choice([0, 1, 1, 2]), True)
+            if rng.random() < 0.85:
+                if num[0] == "0":
+                    num[0] = rng.choice(["1", "-2", "3"])
+                if den[0] == "0":
+                    den[0] = rng.choice(["1", "2", "-1"])
+            if rng.random() < 0.15:
+                num = [tok(Fraction(x) / 4) for x in num]
+            return [num, den]
+        ldt = dt if rng.random() < 0.85 else "N"
+        if shared:
+            pool = [ent() for _ in range(rng.choice([1, 1, 2]))]
+            if len(pool) == 2 and rng.random() < 0.3:
+                pool[1] = [pool[0][0], pool[1][1]]      # same numerator array, another denominator
+            ents = [rng.choice(pool) for _ in range(p * m)]
+            return ["T", p, m, ldt, ents, rng.choice(["shared", "shared", "shared_int"])]
+        ents = [ent() for _ in range(p * m)]
+        return ["T", p, m, ldt, ents,
+                rng.choice(["float", "int", "ndarray_int", "ndarray_float", "nested", "shared"])]
+
+    def assemble(self, rng, g, shape, dt):
+        """a system several entries of which ARE the same coefficient objects: built from the block
+        `g` (a ["var", name] of shape `shape`) by append / combine_tf / indexing.
+        Returns (tree, shape of the tree)."""
+        p, m = shape
+        r = rng.random()
+        if r < 0.2:
+            return ["append", g, g], (2 * p, 2 * m)
+        if r < 0.36:
+            return ["hcat", g, g], (p, 2 * m)
+        if r < 0.5:
+            return ["vcat", g, g], (2 * p, m)
+        if r < 0.6:         # four aliases
+            return ["vcat", ["hcat", g, g], ["hcat", g, g]], (2 * p, 2 * m)
+        if r < 0.68:        # an odd number of aliases
+            return ["hcat", ["hcat", g, g], g], (p, 3 * m)
+        if r < 0.76:        # two aliases around a different block
+            h = self.alias_leaf(rng, shape, dt)
+            if rng.random() < 0.5:
+                return ["hcat", ["hcat", g, h], g], (p, 3 * m)
+            return ["vcat", ["vcat", g, h], g], (3 * p, m)
+        # indexing with repeated rows / columns: G[[0, 0], [1, 1]]
+        rows = [rng.randrange(p) for _ in range(rng.choice([1, 2, 2, 3]))]
+        cols = [rng.randrange(m) for _ in range(rng.choice([1, 2, 2]))]
+        if len(rows) * len(cols) == 1:
+            rows = rows * 2
+        return ["sel", rows, cols, g], (len(rows), len(cols))
+
+    def alias_case(self, rng, tier):
+        """operands that have a HISTORY: the same system object / the same coefficient array
+        objects occur several times (let-bound blocks, append(G, G), combine_tf([[G, G]]),
+        G[[0, 0], 0], tf([[n, n]], [[d, d]])), then negation, subtraction and the other operators"""
+        dt = rng.choice(["C", "C", "C", "N", "T", DT01, "D1/4"])
+        r = rng.random()
+        if r < 0.5:
+            # (1) assemble, then negate / subtract (the operators that work on a copy of the arrays)
+            if rng.random() < 0.2:      # the aliases are made by one constructor call
+                ashape = rng.choice([(1, 2), (2, 1), (2, 2), (2, 2), (2, 3), (3, 2)])
+                lets = [("a", self.alias_leaf(rng, ashape, dt, shared=True))]
+            else:
+                shape = rng.choice([(1, 1), (1, 1), (1, 1), (1, 2), (2, 1), (2, 2)])
+                gdef = self.alias_leaf(rng, shape, dt) if rng.random() < 0.75 else \
+                    self.gen(rng, 1, shape, dt, {})
+                A, ashape = self.assemble(rng, ["var", "g"], shape, dt)
+                lets = [("g", gdef), ("a", A)]
+            a = ["var", "a"]
+            B = lambda: self.alias_leaf(rng, ashape, dt)
+            q = rng.randrange(13)
+            if q == 0 or q == 1:
+                t = ["neg", a]
+            elif q == 2:
+                t = ["sub", B(), a]
+            elif q == 3:
+                t = ["sub", a, B()]
+            elif q == 4:
+                t = ["sub", self.scalar(rng) if rng.random() < 0.5 else self.array(rng, ashape), a]
+            elif q == 5:
+                t = ["sub", a, a]
+            elif q == 6:
+                t = ["add", ["neg", a], a]
+            elif q == 7:
+                t = ["sub", self.alias_leaf(rng, (1, 1), dt), a]
+            elif q == 8:
+                t = ["neg", ["neg", a]]
+            elif q == 9:
+                t = ["mul", ["neg", a], self.alias_leaf(rng, (ashape[1], rng.choice([1, 2])), dt)]
+            elif q == 10:
+                t = ["sub", ["mul", self.scalar(rng), a], a]
+            elif q == 11:
+                t = [rng.choice(["hcat", "vcat"]), ["neg", a], a]
+            else:
+                t = ["div", ["neg", a], self.alias_leaf(rng, (1, 1), dt)]
+            if rng.random() < 0.25 and t[0] not in ("hcat", "vcat") and \
+                    not (t[0] == "mul" and t[1][0] == "neg"):
+                t = [rng.choice(["add", "sub"]), t, B()] if rng.random() < 0.6 else \
+                    ["mul", self.scalar(rng), t]
+            for (name, d) in reversed(lets):
+                t = ["let", name, d, t]
+            return t
+        if r < 0.78:
+            # (2) the same object on both sides of one operator: op(f(G), h(G))
+            shape = rng.choice([(1, 1), (1, 1), (1, 1), (1, 2), (2, 1), (2, 2), (2, 2), (3, 3)])
+            gdef = self.alias_leaf(rng, shape, dt, shared=rng.random() < 0.15) \
+                if rng.random() < 0.8 else self.gen(rng, 1, shape, dt, {})
+            g = ["var", "g"]
+            def f():
+                q = rng.random()
+                if q < 0.55:
+                    return g
+                if q < 0.75:
+                    return ["neg", g]
+                if q < 0.85:
+                    return ["mul", self.scalar(rng), g]
+                if q < 0.93 and shape[0] == shape[1]:
+                    return ["pow", rng.choice([1, 2]), g]
+                return ["sel", list(range(shape[0])), list(range(shape[1])), g]
+            ops = ["add", "sub", "sub", "append", "hcat", "vcat"]
+            if shape[0] == shape[1]:
+                ops += ["mul", "mul"]
+            if shape == (1, 1):
+                ops += ["div", "div", "fb", "fb"]
+            op = rng.choice(ops)
+            if op == "fb":
+                t = ["fb", rng.choice(["-1", "1", "2", "-1/2"]), rng.choice(["method", "func"]), f(), f()]
+            else:
+                t = [op, f(), f()]
+            if rng.random() < 0.3:      # ... and the operand once more afterwards
+                t = [rng.choice(["add", "sub"]), t, g] if op in ("add", "sub", "mul", "div", "fb") \
+                    else ["neg", t]
+            return ["let", "g", gdef, t]
+        # (3) random operator trees over let-bound operands
+        shape = self.rshape(rng)
+        shapes = [shape, (1, 1), (shape[1], shape[0]), self.rshape(rng)]
+        lets = []
+        for i, shp in enumerate(shapes[:rng.choice([2, 3, 4])]):
+            d = self.alias_leaf(rng, shp, dt, shared=rng.random() < 0.15) if rng.random() < 0.8 \
+                else self.gen(rng, 1, shp, dt, {})
+            lets.append(("v%d" % i, shp, d))
+        depth = rng.choice([2, 2, 3]) if tier == "quick" else rng.choice([2, 3, 3, 4])
+        t = self.gen(rng, depth, shape, dt, {"alias": [(n, shp) for (n, shp, _) in lets]})
+        if t[0] in ("var", "T"):
+            t = [rng.choice(["add", "sub", "sub"]), t, ["var", "v0"]]
+        for (name, _, d) in reversed(lets):
+            t = ["let", name, d, t]
+        return t
+
+    def dispatch_operand(self, rng, dt, mimo=False, sys_only=False):
+        """one operand of a given class: scalar, array, SISO / row / column / square / non-square
+        system, from literals or assembled"""
+        r = rng.random()
+        if not sys_only and not mimo and r < 0.1:
+            return self.scalar(rng)
+        if not sys_only and r < 0.2:
+            return self.array(rng, rng.choice([(1, 2), (2, 1), (2, 2), (2, 3), (3, 3)] +
+                                               ([] if mimo else [(1, 1)])))
+        shapes = [(1, 2), (2, 1), (2, 2), (2, 2), (2, 2), (2, 3), (3, 2), (3, 3)]
+        if not mimo:
+            shapes += [(1, 1)] * 4
+        shape = rng.choice(shapes)
+        q = rng.random()
+        if q < 0.55 or shape == (1, 1):
+            return self.alias_leaf(rng, shape, dt, shared=rng.random() < 0.15)
+        if q < 0.8:
+            # assembled from one SISO block (append / combine_tf / indexing)
+            g = self.alias_leaf(rng, (1, 1), dt)
+            for _ in range(6):
+                t, shp = self.assemble(rng, ["var", "b"], (1, 1), dt)
+                if shp == shape:
+                    return ["let", "b", g, t]
+            if shape == (2, 2):
+                return ["let", "b", g, ["append", ["var", "b"], ["var", "b"]]]
+        return self.gen(rng, 1, shape, dt, {})
+
+    def dispatch_case(self, rng, tier):
+        """one operator applied to every combination of operand classes (also the combinations
+        the code rejects: MIMO divisor, negative power of a MIMO system, MIMO feedback, shape
+        mismatches)"""
+        dt = rng.choice(["C", "C", "C", "N", "T", DT01])
+        op = rng.choice(["div"] * 6 + ["pow"] * 4 + ["fb"] * 3 +
+                        ["add", "sub", "mul", "mul", "append", "hcat", "vcat"])
+        if op == "pow":
+            return ["pow", rng.choice([-3, -2, -1, -1, -1, 0, 1, 2]),
+                    self.dispatch_operand(rng, dt, mimo=rng.random() < 0.75, sys_only=True)]
+        if op == "fb":
+            a = self.dispatch_operand(rng, dt, mimo=rng.random() < 0.6, sys_only=True)
+            b = self.dispatch_operand(rng, dt, mimo=rng.random() < 0.5)
+            return ["fb", rng.choice(["-1", "-1", "1", "2", "-1/2"]), rng.choice(["method", "func"]), a, b]
+        if op == "div":
+            b = self.dispatch_operand(rng, dt, mimo=rng.random() < 0.8)
+            a = self.dispatch_operand(rng, dt, mimo=rng.random() < 0.3, sys_only=b[0] in ("S", "A"))
+            return ["div", a, b]
+        if op in ("append", "hcat", "vcat"):
+            a = self.dispatch_operand(rng, dt, sys_only=True)
+            b = self.dispatch_operand(rng, dt, mimo=rng.random() < 0.3)
+            if b[0] == "S":
+                b = self.array(rng, (1, 1))
+            return [op, a, b]
+        a = self.dispatch_operand(rng, dt)
+        b = self.dispatch_operand(rng, dt, sys_only=a[0] in ("S", "A"))
+        return [op, a, b]
+    # ---- [u01] end ----------------------------------------------------------------------------
+
     def leaf(self, rng, shape, dt, big=False):
         p, m = shape
         static = rng.random() < 0.12
@@ -442,6 +886,10 @@ class C01(Family):
     def gen(self, rng, depth, shape, dt, st):
         """tree of the requested shape (mostly valid)"""
         p, m = shape
+        if st.get("alias"):     # [u01] let-bound operands of the alias stream (own rng draws)
+            cands = [n for (n, shp) in st["alias"] if shp == shape]
+            if cands and rng.random() < (0.7 if depth <= 0 else 0.3):
+                return ["var", rng.choice(cands)]
         if depth <= 0 or rng.random() < 0.2:
             if st.get("near"):
                 return self.near_leaf(rng, shape, dt, st["near"])
@@ -585,6 +1033,12 @@ class C01(Family):
         rng2 = __import__("random").Random(rng.random())
         for i in range(170 if tier == "quick" else 2600):
             out.append({"tree": self.near_case(rng2, tier), "near": True})
+        # [u01] shared-object stream and dispatch stream (own generator state, drawn after the others)
+        rng3 = __import__("random").Random(rng.random())
+        for i in range(150 if tier == "quick" else 2400):
+            out.append({"tree": prune_lets(self.alias_case(rng3, tier)), "alias": True})
+        for i in range(90 if tier == "quick" else 1200):
+            out.append({"tree": prune_lets(self.dispatch_case(rng3, tier)), "dispatch": True})
         return out
 
     def corpus(self):
@@ -602,7 +1056,13 @@ class C01(Family):
 
     # ---- execution ----------------------------------------------------------
     def line(self, case):
-        return "tf " + flatten(case["tree"])
+        main = "tf " + flatten(case["tree"])
+        # [u01] division / negative power / feedback: also the operands, so that compare can
+        # evaluate the property on a returned system where the model answers notImplemented
+        ops = operand_trees(case["tree"])
+        if ops is None:
+            return main
+        return [main] + ["tf " + flatten(o) for o in ops]
 
     def impl(self, case):
         try:
@@ -615,6 +1075,10 @@ class C01(Family):
             return {"ok": {"type": "nonfinite"}}
 
     def parse_model(self, case, out):
+        if isinstance(out, list):       # [u01] main line + operand lines
+            res = self.parse_model(case, out[0])
+            res["operands"] = [self.parse_model(case, o) for o in out[1:]]
+            return res
         if out.startswith("err "):
             w = out.split()
             return {"err": w[1], "fx": w[2] == "fx=1"}
@@ -655,6 +1119,10 @@ class C01(Family):
             feat["ops"] = "+".join(sorted(set(ops_in(t)))) or "leaf"
         if case.get("near"):
             feat["cls"] = "near"
+        elif case.get("alias"):         # [u01]
+            feat["cls"] = "alias"
+        elif case.get("dispatch"):      # [u01]
+            feat["cls"] = "dispatch"
         if kind == "value-big":
             # integer-dtype coefficient arrays whose exact product leaves the int64 range
             feat["int64_overflow"] = bool(int_leaf(t) and model is not None and model.get("bits", 0) > 62)
@@ -685,6 +1153,11 @@ class C01(Family):
                 return Verdict(VIOLATES, "a system was returned where the result does not exist "
                                "(model: %s)" % model["err"],
                                self.features(case, "returns-" + model["err"], impl))
+            # [u01] notImplemented in the model, a result in the implementation: evaluate the
+            # property itself on the returned system where the operator is at the root
+            v = self.judge_not_implemented(case, impl, model)
+            if v is not None:
+                return v
             return Verdict(DIFFERS, "model raises %s, implementation returns" % model["err"],
                            self.features(case, "returns-" + model["err"], impl))
         if "err" in impl:
@@ -694,6 +1167,11 @@ class C01(Family):
             return Verdict(VIOLATES, "implementation raises %s where the result exists" % impl["exc"],
                            self.features(case, "raises", impl))
         a, b = impl["ok"], model["ok"]
+        if a["type"] == "nonfinite" and not model.get("fx"):
+            # [u01] inf / nan coefficients where the audit does not bound the binary64 arithmetic
+            # (it requires every term and partial sum below 2^1000): overflow of a mathematically
+            # finite result is rounding, not a wrong result - not judged
+            return Verdict(AGREE)
         if a["type"] != b["type"]:
             return Verdict(VIOLATES, "result type %s vs %s" % (a["type"], b["type"]),
                            self.features(case, "type", impl))
@@ -726,6 +1204,110 @@ class C01(Family):
                            self.features(case, "dt", impl))
         return Verdict(AGREE)
 
+    # ---- [u01] begin: the property on a returned system where the model says notImplemented ----
+    def judge_not_implemented(self, case, impl, model):
+        """The model (= the code as it is) answers notImplemented for a MIMO divisor, a negative
+        power of a MIMO system and MIMO feedback.  If the implementation RETURNS a system there,
+        the property still says what that system must be: X = A * inv(B) (X * B == A, B square and
+        invertible; a SISO / scalar A is a * I), X * M^k == I for M ** -k, and
+        (I - sign*G*H) * X == G for feedback.  Returns VIOLATES with the reason if the returned
+        system is not that (or no such result exists), None if this cannot be decided here."""
+        if model.get("err") != "notImplemented" or "ok" not in impl:
+            return None
+        ops = model.get("operands")
+        if not ops or any("ok" not in o for o in ops):
+            return None
+        _, core = peel(case["tree"])
+        r = impl["ok"]
+        def bad(judge, detail):
+            f = self.features(case, "returns-notImplemented", impl)
+            f["judge"] = judge
+            return Verdict(VIOLATES, "a system was returned where the code's own rule says "
+                           "notImplemented, and it is not the result the property prescribes: "
+                           + detail, f)
+        if r.get("type") == "nonfinite":
+            return None
+        if r.get("type") != "tf":
+            v = bad("type", "the result is not a system but a %s" % r.get("repr", r.get("type")))
+            v.features["rtype"] = r.get("repr", r.get("type"))
+            if core[0] == "div" and "ok" in ops[1]:
+                v.features["divisor"] = ops[1]["ok"]["type"]
+            return v
+        _, X = value_matrix(r)
+        if any(exact.pzero(e[1]) for row in X for e in row):
+            return bad("zero-den", "an entry of the result has a zero denominator")
+        REL = Fraction(1, 10 ** 9)
+        def same(P, Q):
+            return all(rf_close(P[i][j], Q[i][j], REL) for i in range(len(P)) for j in range(len(P[0])))
+        shp = lambda M: "%dx%d" % (len(M), len(M[0]))
+        if core[0] == "div":
+            ka, A = value_matrix(ops[0]["ok"])
+            kb, B = value_matrix(ops[1]["ok"])
+            if A is None or B is None or (len(B) == 1 and len(B[0]) == 1):
+                return None
+            n = len(B)
+            if len(B[0]) != n:
+                return bad("no-inverse", "the divisor is %s (not square): A*inv(B) does not exist, "
+                           "returned a %s system" % (shp(B), shp(X)))
+            if n > 4:
+                return None
+            if len(A) == 1 and len(A[0]) == 1:
+                A = rm_eye(n, A[0][0])          # a SISO / scalar dividend is a * I
+            if len(A[0]) != n:
+                return bad("shape", "dividend %s and divisor %s are incompatible, returned a %s "
+                           "system" % (shp(A), shp(B), shp(X)))
+            if exact.pzero(rm_det(B)[0]):
+                return bad("no-inverse", "the divisor is singular: A*inv(B) does not exist")
+            if (len(X), len(X[0])) != (len(A), n):
+                return bad("shape", "A*inv(B) is %dx%d, returned a %s system" % (len(A), n, shp(X)))
+            if not same(rm_mul(X, B), A):
+                return bad("value", "X*B != A for the returned X")
+            return None
+        if core[0] == "pow":
+            _, M = value_matrix(ops[0]["ok"])
+            if M is None or (len(M) == 1 and len(M[0]) == 1):
+                return None
+            n = len(M)
+            if len(M[0]) != n:
+                return bad("no-inverse", "a negative power of a %s (not square) system does not "
+                           "exist, returned a %s system" % (shp(M), shp(X)))
+            if n > 4:
+                return None
+            if (len(X), len(X[0])) != (n, n):
+                return bad("shape", "M**%d is %dx%d, returned a %s system" % (core[1], n, n, shp(X)))
+            P = X
+            for _ in range(-core[1]):
+                P = rm_mul(P, M)
+            if not same(P, rm_eye(n)):
+                return bad("value", "X * M^%d != I for the returned X = M**%d" % (-core[1], core[1]))
+            return None
+        if core[0] == "fb":
+            _, G = value_matrix(ops[0]["ok"])
+            kh, H = value_matrix(ops[1]["ok"])
+            if G is None or H is None or ops[0]["ok"]["type"] != "tf":
+                return None
+            p, m = len(G), len(G[0])
+            if (len(H), len(H[0])) != (m, p):
+                if len(H) == 1 and len(H[0]) == 1:
+                    return None     # a SISO / scalar feedback path might be broadcast: not decided
+                return bad("shape", "feedback of a %s system through a %s one has incompatible "
+                           "shapes, returned a %s system" % (shp(G), shp(H), shp(X)))
+            if p > 4:
+                return None
+            sign = rf_const(Fraction(core[1]))
+            L = rm_mul(G, H)
+            L = [[rf_add(RF1 if i == j else RF0, rf_neg(rf_mul(sign, L[i][j]))) for j in range(p)]
+                 for i in range(p)]
+            if exact.pzero(rm_det(L)[0]):
+                return bad("no-inverse", "I - sign*G*H is singular: the closed loop does not exist")
+            if (len(X), len(X[0])) != (p, m):
+                return bad("shape", "the closed loop is %dx%d, returned a %s system" % (p, m, shp(X)))
+            if not same(rm_mul(L, X), G):
+                return bad("value", "(I - sign*G*H) * X != G for the returned X")
+            return None
+        return None
+    # ---- [u01] end ----------------------------------------------------------------------------
+
     def nontrivial(self, case, model):
         t = case["tree"]
         if "ok" not in model or model["ok"]["type"] != "tf":
@@ -751,25 +1333,49 @@ class C01(Family):
                 "err:" + model["err"] if "err" in model else
                 "exact" if self.exact_regime(case, model) else "tolerance")
             st["near_root"] = t[0]
+        # [u01] begin
+        if "ok" in impl and impl["ok"].get("type") == "nonfinite" and "ok" in model:
+            st["nonfinite"] = "not-judged(overflow)" if not model.get("fx") else "judged"
+        for key in ("alias", "dispatch"):
+            if case.get(key):
+                core = peel(t)[1]
+                st[key + "_root"] = core[0] if core[0] != "pow" else ("pow-" if core[1] < 0 else "pow+")
+                st[key + "_outcome"] = ("err:" + model["err"]) if "err" in model else "ok"
+        if case.get("alias"):
+            st["alias_lets"] = sum(1 for o in ops_in(t) if o == "let")
+        # [u01] end
         return st
 
     # ---- shrinking / search ----------------------------------------------------
     def shrink(self, case):
         for c in self._shrink(case):
-            if case.get("near"):
-                c["near"] = True
+            if free_vars(c["tree"]):        # [u01] a candidate must be a closed tree ...
+                continue
+            c["tree"] = prune_lets(c["tree"])       # ... without unused definitions
+            for key in ("near", "alias", "dispatch"):
+                if case.get(key):
+                    c[key] = True
             yield c
 
     def _shrink(self, case):
         t = case["tree"]
         # replace the tree by a sub-tree
-        def subtrees(t):
-            for i in children(t):
-                yield t[i]
-                yield from subtrees(t[i])
-        for s in subtrees(t):
-            if s[0] not in ("S", "A"):
+        for s in closed_subtrees(t):       # [u01] sub-trees keep the lets they refer to
+            if s[0] not in ("S", "A", "var"):
                 yield {"tree": s}
+        # [u01] a let whose name is not used / used once: drop it / inline it
+        def unlet(t):
+            if t[0] == "let":
+                uses = sum(1 for _ in var_uses(t[3], t[1]))
+                if uses <= 1:
+                    yield subst(t[3], t[1], t[2])
+            for i in children(t):
+                for c in unlet(t[i]):
+                    t2 = list(t)
+                    t2[i] = c
+                    yield t2
+        for c in unlet(t):
+            yield {"tree": c}
         # replace a non-root subtree by a simple leaf of ... (keep shapes unknown: try SISO 1/(s+1))
         def rebuild(t, path, new):
             if not path:
@@ -789,6 +1395,10 @@ class C01(Family):
                 # simplify leaf coefficients
                 _, p, m, dt, ents, form = sub
                 simple = [[["1"], ["1", str(k + 1)]] for k in range(p * m)]
+                if form in SHARED_FORMS:        # [u01] keep the shared arrays
+                    same = [[["1"], ["1", "2"]]] * (p * m)
+                    if ents != same:
+                        yield {"tree": rebuild(t, list(pth), ["T", p, m, dt, same, form])}
                 if ents != simple:
                     yield {"tree": rebuild(t, list(pth), ["T", p, m, dt, simple, "float"])}
                 if dt != "C":
@@ -798,7 +1408,10 @@ class C01(Family):
                     yield {"tree": rebuild(t, list(pth), sub[i])}
 
     def search(self, rng, case, tier):
-        out = []
+        # [u01] first the sub-trees of the disagreeing case: an operator that the model rejects
+        # (notImplemented) below the root is judged where it is the root of a case
+        out = [dict({k: v for k, v in case.items() if k != "tree"}, tree=prune_lets(s))
+               for s in closed_subtrees(case["tree"]) if s[0] not in ("S", "A", "T", "var")]
         for _ in range(300):
             dt = rng.choice(["C", "N", "T", DT01])
             t = self.gen(rng, 2, self.rshape(rng), dt, {})
